@@ -14,32 +14,6 @@ theorem Opcode.mem_all (o : Opcode) : o ∈ Opcode.all := by
 theorem forall_opcode_of_all {P : Opcode → Bool} (h : Opcode.all.all P = true) (o : Opcode) : P o = true :=
   (List.all_eq_true.mp h) o (Opcode.mem_all o)
 
-/-! ### `markAll` only marks members -/
-
-theorem foldl_set_true (l : List Nat) (a : Array Bool) (i : Nat)
-    (h : (l.foldl (fun a i => a.setIfInBounds i true) a).getD i false = true) :
-    i ∈ l ∨ a.getD i false = true := by
-  induction l generalizing a with
-  | nil => exact Or.inr h
-  | cons x xs ih =>
-    simp only [List.foldl_cons] at h
-    rcases ih _ h with hm | hs
-    · exact Or.inl (List.mem_cons_of_mem _ hm)
-    · by_cases hx : x = i
-      · exact Or.inl (hx ▸ List.mem_cons_self)
-      · right
-        simp only [Array.getD_eq_getD_getElem?, Array.getElem?_setIfInBounds] at hs ⊢
-        split at hs
-        · exact absurd (by assumption) hx
-        · exact hs
-
-theorem markAll_true (l : List Nat) (n i : Nat) (h : (markAll l n).getD i false = true) : i ∈ l := by
-  rcases foldl_set_true l _ i h with hm | hs
-  · exact hm
-  · exfalso
-    simp only [Array.getD_eq_getD_getElem?, Array.getElem?_replicate] at hs
-    split at hs <;> simp at hs
-
 /-! ### what `check` guarantees -/
 
 /-- the annotation is an invariant candidate: the state is annotated exactly as it is -/
@@ -51,25 +25,21 @@ theorem holds_iff (H : Ann) (s : St) : H.holds s = true ↔ H.at s.pc = some (s.
   · intro h; exact eq_of_beq h
   · intro h; rw [h]; exact beq_self_eq_true _
 
-theorem check_facts (p : Program) (H : Ann) (h : check p H = true) : ∃ bl, boundaries p = some bl ∧
+theorem check_facts (p : Program) (H : Ann) (h : check p H = true) :
     (∀ e ∈ p.entries, e < p.size ∧ H.holds (St.start e) = true) ∧
-    (∀ pc, pc < p.size → checkAt p H (markAll bl p.size) pc = true) := by
+    (∀ pc, pc < p.size → checkAt p H pc = true) := by
   unfold check at h
-  split at h
-  · exact absurd h (by simp)
-  · rename_i bl hbl
-    refine ⟨bl, hbl, ?_, ?_⟩
-    · simp only [Bool.and_eq_true, List.all_eq_true, decide_eq_true_eq] at h
-      intro e he
-      exact h.1.1.1.2 e he
-    · simp only [Bool.and_eq_true, List.all_eq_true, decide_eq_true_eq] at h
-      intro pc hpc
-      exact h.1.1.2 pc (List.mem_range.mpr hpc)
+  simp only [Bool.and_eq_true, List.all_eq_true, decide_eq_true_eq] at h
+  refine ⟨?_, ?_⟩
+  · intro e he
+    exact h.1.1.1.2 e he
+  · intro pc hpc
+    exact h.1.1.2 pc (List.mem_range.mpr hpc)
 
 /-- the local condition, taken apart -/
-theorem checkAt_facts (p : Program) (H : Ann) (B : Array Bool) (s : St)
-    (hat : H.at s.pc = some (s.h, s.mark)) (hc : checkAt p H B s.pc = true) :
-    B.getD s.pc false = true ∧ s.h + 1 ≤ p.declared ∧ refsOk p s.pc = true ∧
+theorem checkAt_facts (p : Program) (H : Ann) (s : St)
+    (hat : H.at s.pc = some (s.h, s.mark)) (hc : checkAt p H s.pc = true) :
+    interiorFree p H s.pc = true ∧ s.h + 1 ≤ p.declared ∧ refsOk p s.pc = true ∧
     (∀ k, endHeight p s = some k → k = 0) ∧
     (∃ l, step p s = some l ∧ ∀ s' ∈ l, s'.pc < p.size ∧ H.holds s' = true) := by
   unfold checkAt at hc
@@ -93,14 +63,14 @@ theorem checkAt_facts (p : Program) (H : Ann) (B : Array Bool) (s : St)
 
 theorem inv_start (p : Program) (H : Ann) (h : check p H = true) (e : Nat) (he : e ∈ p.entries) :
     Inv p H (St.start e) := by
-  obtain ⟨bl, _, hent, _⟩ := check_facts p H h
+  obtain ⟨hent, _⟩ := check_facts p H h
   obtain ⟨h1, h2⟩ := hent e he
   exact ⟨h1, (holds_iff H _).mp h2⟩
 
 theorem inv_step (p : Program) (H : Ann) (h : check p H = true) (s : St) (hi : Inv p H s)
     (l : List St) (hl : step p s = some l) (s' : St) (hs' : s' ∈ l) : Inv p H s' := by
-  obtain ⟨bl, _, _, hloc⟩ := check_facts p H h
-  obtain ⟨_, _, _, _, l', hl', hall⟩ := checkAt_facts p H _ s hi.2 (hloc s.pc hi.1)
+  obtain ⟨_, hloc⟩ := check_facts p H h
+  obtain ⟨_, _, _, _, l', hl', hall⟩ := checkAt_facts p H s hi.2 (hloc s.pc hi.1)
   rw [hl] at hl'
   cases hl'
   obtain ⟨h1, h2⟩ := hall s' hs'
@@ -140,16 +110,31 @@ theorem decode_inside (p : Program) (pc : Nat) (i : Instr) (h : decode p pc = so
   · exact absurd h (by simp)
 
 theorem safe_of_inv (p : Program) (H : Ann) (h : check p H = true) (s : St) (hi : Inv p H s) : Safe p s := by
-  obtain ⟨bl, hbl, _, hloc⟩ := check_facts p H h
-  obtain ⟨hB, hd, hr, he, l, hl, _⟩ := checkAt_facts p H _ s hi.2 (hloc s.pc hi.1)
+  obtain ⟨_, hloc⟩ := check_facts p H h
+  obtain ⟨_, hd, hr, he, l, hl, _⟩ := checkAt_facts p H s hi.2 (hloc s.pc hi.1)
   exact {
-    boundary := ⟨bl, hbl, markAll_true bl p.size s.pc hB⟩
     inside := hi.1
     executable := by rw [hl]; rfl
     decodes_inside := fun i hdec => decode_inside p s.pc i hdec
     height := hd
     endsEmpty := he
     refs := hr }
+
+/-- two annotated states never overlap: the second does not start strictly inside the first's instruction -/
+theorem no_overlap_of_inv (p : Program) (H : Ann) (h : check p H = true) (s₁ s₂ : St)
+    (h₁ : Inv p H s₁) (h₂ : Inv p H s₂) : ¬ insideInstr p s₁.pc s₂.pc := by
+  intro ⟨i, hdec, hlo, hhi⟩
+  obtain ⟨_, hloc⟩ := check_facts p H h
+  obtain ⟨hfree, _⟩ := checkAt_facts p H s₁ h₁.2 (hloc s₁.pc h₁.1)
+  unfold interiorFree at hfree
+  rw [hdec] at hfree
+  have hk : s₂.pc - (s₁.pc + 1) ∈ List.range (i.len - 1) := by
+    apply List.mem_range.mpr
+    omega
+  have := (List.all_eq_true.mp hfree) _ hk
+  have hpc : s₁.pc + 1 + (s₂.pc - (s₁.pc + 1)) = s₂.pc := by omega
+  rw [hpc, h₂.2] at this
+  simp at this
 
 /-- soundness of the checker for any annotation -/
 theorem check_sound (p : Program) (H : Ann) (h : check p H = true) (e : Nat) (he : e ∈ p.entries)
